@@ -616,8 +616,11 @@ func (s *Subscription) processCollectionEvent(event *rescache.ResourceEvent) {
 			if sub.IsSent() {
 				// We increase the indirectsent references, otherwise increased
 				// when calling sub.GetRPCResources, since we have no new
-				// resources to populate.
-				sub.indirectsent++
+				// resources to populate. A second reference from this
+				// subscription to the same resource is not counted again.
+				if s.refs[rid].count == 1 {
+					sub.indirectsent++
+				}
 				s.c.Send(rpc.NewEvent(s.rid, event.Event, rpc.AddEvent{Idx: idx, Value: v.RawMessage}))
 				return
 			}
@@ -683,6 +686,11 @@ func (s *Subscription) processModelEvent(event *rescache.ResourceEvent) {
 					s.c.Errorf("Subscription %s: Error subscribing to resource %s: %s", s.rid, v.RID, err)
 					// TODO handle error properly
 					return
+				}
+				// A second reference from this subscription to the same
+				// resource is no new indirect subscription.
+				if s.refs[v.RID].count > 1 {
+					continue
 				}
 				hasUnsent = hasUnsent || !sub.IsSent()
 				if subs == nil {
